@@ -91,7 +91,8 @@ def streams(tier, rng, P, only=None, cases=None):
                     "PRINT(MID({あいう},2,-1)) PRINT(MID({あいう},3,-2))", "PRINT(CHR(-1)) PRINT(CHR(-65)) PRINT(HEX(-1)) PRINT(HEX(-255))", "PRINT(REPLACE({abc},{},{x})) PRINT(REPLACE({},{a},{b}))", "FUNCTION F(){ F2() }", "F(1)", "RETURN(1)", "BREAK", "CONTINUE", "ELSE{c}", "IF(1)", "WHILE(1)", "FOR(", "FOR(;;){BREAK}", "#A #A", "#A={#?1} #A", "Rhythm{(", "Rhythm{Sub", "R{$}", "$", "$=", "v.onNote() c", "v.onNote(=) c",
                     "y1.onNote() c", "y.onTime c", "p.onTime() c", "PB.T c", "l.onNote() c", "o.onCycle() c", "t.onNote(1,) c", "q.Random() c", "v.onTime(1,2) c", "v.onTime(0,1,0) c", "M.onTime(0,127,0) c", "M.onTime(0,127,-5) c", "Slur(9) c&d e", "c& &d e", "n& c", "r& c",
                     "Sub{", "Div{c}-4", "{c}%0", "c%-5 d", "l%-9 c d", "r-1 c", "c,,,-999 d", "TIME(-5) c", "PlayFrom(-1) c", "PlayFrom(99:1:0) c", "? ? c",
-                    "WHILE(1){ CONTINUE }", "INT I=0; WHILE(I<4){ IF(I==2){ CONTINUE } c I++ } d", "FOR(;;){ CONTINUE }", "WHILE(1){ IF(1){ CONTINUE } c }",
+                    "WHILE(1){ CONTINUE }", "INT I=0; WHILE(I<4){ IF(I==2){ CONTINUE } c I++ } d", "FOR(;;){ CONTINUE }", "FOR(INT I=0; 1; I++){ CONTINUE }", "INT N=0 FOR(INT I=0; I<4; ){ N++ IF(N>=2){ CONTINUE } c I++ } d", "FOR(INT I=0;1;){ IF(1){ CONTINUE } c }", "FUNCTION F(){ FOR(INT I=0;1;I++){ c CONTINUE } } F()",
+                    "WHILE(1){ IF(1){ CONTINUE } c }",
                     "FUNCTION F(){ WHILE(1){ IF(1){ CONTINUE } } } F()", "WHILE(1){ FOR(INT I=0;I<2;I++){ CONTINUE } CONTINUE }",
                     "INT A=-9223372036854775808; INT B=0-1; PRINT(A/B)", "INT A=-9223372036854775808; INT B=0-1; PRINT(A%B)", "PRINT(-9223372036854775808/(0-1))",
                     "PRINT(9999999999999999999)", "v9999999999999999999 c", "TIME(9999999999999999999) c", "o9999999999999999999 c", "n9999999999999999999", "INT A=9999999999999999999*9999999999999999999 PRINT(A)"]:
